@@ -24,7 +24,7 @@ def shards(tier):
 def floors(tier):
     return {"tables": 300, "symbols_decoded_alone": 10000, "strings_decoded": 5000, "tables_with_cap0": 50,
             "tables_with_cap>=9": 50, "tables_with_multidigit_charge": 50, "alphabet_after_switch": 300,
-            "noncanonical_key_rejected": 10, "decoded_atoms>=30": 50}
+            "noncanonical_key_rejected": 10, "passed_dict_mutated": 100, "decoded_atoms>=30": 50}
 
 
 def model_alphabet(t):
@@ -69,11 +69,20 @@ def run(ctx):
         flagged = rng.random() < 0.08
         if flagged:
             t[rng.choice(["C+0", "N+01", "O-0", "S+²", "Fe+00", "C-007"])] = rng.choice([1, 2, 3])
+        passed = dict(t)
         try:
-            sf.set_semantic_constraints(dict(t))
+            sf.set_semantic_constraints(passed)
         except ValueError:
             ctx.count("noncanonical_key_rejected" if flagged else "table_rejected")
             continue
+        if ti % 3 == 0:
+            # the caller keeps using (and changing) the dict it passed; whatever the library then reports as the
+            # table in force, the alphabet must be the alphabet of that table
+            call_guard(sf.get_semantic_robust_alphabet)
+            passed[rng.choice(["O", "N", "Xe", "Fe+2"])] = rng.choice([0, 1, 3, 6])
+            passed.pop(rng.choice(sorted(passed)), None) if len(passed) > 2 and rng.random() < 0.3 and "?" in passed else None
+            passed.setdefault("?", 2)
+            ctx.count("passed_dict_mutated")
         table = sf.get_semantic_constraints()
         ctx.count("tables")
         if any(v == 0 for v in table.values()):
